@@ -164,7 +164,7 @@ fn scheme_b64(oti: &OtiSpec, tl: u64) -> Option<String> {
     let p = ref_partition(oti.b as u128, tl as u128, oti.e as u128);
     let z = (p.n as u64).max(1);
     match oti.fec {
-        Fec::RaptorQ => Some(base64::engine::general_purpose::STANDARD.encode([z as u8, 0, 1, oti.al])),
+        Fec::RaptorQ => Some(base64::engine::general_purpose::STANDARD.encode([z as u8, (oti.n.max(1) >> 8) as u8, oti.n.max(1) as u8, oti.al])),
         Fec::Raptor => Some(base64::engine::general_purpose::STANDARD.encode([(z >> 8) as u8, z as u8, 1, oti.al])),
         _ => None,
     }
@@ -364,7 +364,16 @@ fn judge_run(run: &ScriptRun, gname: &'static str, case: usize, items: &Mutex<Ve
         }
         Err(p) => cr.violations.push(Violation::new("panic", format!("receiver panicked: {} @ {}", p.msg, p.short_loc())).with("site", p.file()).witness(wit(json!(null)))),
     }
-    items.lock().unwrap().extend(local_items);
+    // the expat / XSD stage works on a bounded set of documents (memory: a thorough run emits millions of instances;
+    // every instance is judged structurally above): everything up to 120 000 documents, one in sixteen beyond, 300 000 at most
+    let mut g = items.lock().unwrap();
+    for it in local_items {
+        if g.len() < 120_000 || (g.len() < 300_000 && util::fnv(&it.id) % 16 == 0) {
+            g.push(it);
+        } else {
+            cr.count("xml_documents_not_sent_to_expat_stage", 1);
+        }
+    }
 }
 
 fn hostile_meta(rng: &mut Rng, o: &mut ObjSpec, k: usize) {
